@@ -112,6 +112,10 @@ func Corpus() []Genuine {
 		}, nil)},
 		{Name: "s-user", Stream: true, Plain: wire.UserStream([]byte("reliable-user-payload"))},
 		{Name: "s-ping", Stream: true, Plain: wire.Encode(wire.PingMsg, &wire.Ping{SeqNo: 777, Node: "n0"})},
+		// block-aligned plaintexts (32 bytes) whose last byte looks like a pad length
+		{Name: "user-aligned-badpad", Plain: append(append([]byte{wire.UserMsg}, []byte("transfer=1000;account=1234567;")[:29]...), 0x00, 0x05)},
+		{Name: "user-aligned-goodpad", Plain: append(append([]byte{wire.UserMsg}, []byte("transfer=1000;account=12345;")[:27]...), 4, 4, 4, 4)},
+		{Name: "s-user-aligned-badpad", Stream: true, Plain: wire.UserStream(append([]byte("0123456789abcdef"), 0x00, 0x03))},
 		{Name: "s-compress-pushpull", Stream: true, Plain: wire.CompressWrap(wire.PushPull(false, []wire.PushNodeState{
 			{Name: "pp3", Addr: []byte{10, 0, 0, 90}, Port: 7946, Incarnation: 1, State: wire.StateAlive, Vsn: Vsn},
 		}, []byte("us")))},
